@@ -196,7 +196,11 @@ pub fn value_to_tokens(value: &ASN1Value) -> Result<String, GeneratorError> {
                 s.pop();
                 s + "\""
             }),
-        ASN1Value::Time(_) => todo!(),
+        ASN1Value::Time(_) => Err(GeneratorError {
+            details: "Time values are currently unsupported!".into(),
+            kind: crate::prelude::GeneratorErrorType::NotYetInplemented,
+            ..Default::default()
+        }),
         ASN1Value::LinkedArrayLikeValue(seq) => seq
             .iter()
             .try_fold(String::from("["), |mut acc, v| {
@@ -219,7 +223,11 @@ pub fn value_to_tokens(value: &ASN1Value) -> Result<String, GeneratorError> {
             value,
         } => Ok(value.to_string()),
         ASN1Value::LinkedCharStringValue(_, value) => Ok(string_literal(value)),
-        ASN1Value::All => todo!(),
+        ASN1Value::All => Err(GeneratorError {
+            details: "ALL values are currently unsupported!".into(),
+            kind: crate::prelude::GeneratorErrorType::NotYetInplemented,
+            ..Default::default()
+        }),
     }
 }
 
